@@ -174,7 +174,11 @@ def random_tail(ref, rng, maxlen=4, p_edge=.4):
             if not len(trs):
                 continue
             k = int(rng.integers(0, len(trs)))
-            if rfs[k]:
+            try:
+                nonempty = bool(rfs[k])
+            except Exception:      # e.g. an OwnChildReference of an EmptyLike child of a trimmed element has no 'gauss' scheme to measure its volume
+                nonempty = False
+            if nonempty:
                 tail.append(trs[k])
                 kinds.append(('edge:' if use_edge else 'child:') + type(trs[k]).__name__ + '@' + type(ref).__name__.replace('Reference', ''))
                 ref = rfs[k]
